@@ -966,3 +966,92 @@ fn vq_c01_reassembler_observers_k2() {
     observers_step(2);
 }
 }
+
+// ---- variant 5 (follow-up run on the idle machine): K=0, one write of <= 2 bytes ------------------------------------------
+// Ran 61 min / 6.7 GB without a result (see the RECORD in contracts/kani/core/c01_reassembler_modular.rs).  It was
+// appended to the registered modular file in this form (stubs st_new / st_allocate_slot / st_try_write_reader /
+// st_unsplit and the `write` arm of `modular!` as above; `write_step(n, lmax)` = `write_step(n)` above with
+// `kani::assume(len <= lmax)`):
+/*
+
+// ---- write_at / write_at_fin (re-run on the idle machine, see RECORD) ---------------------------------------------------------
+//@ harness props=C16,C01 tier=thorough level=bounded bound="K=0 stored slots before the write, payload L<=2 bytes; Slot methods and allocate_slot replaced by contract stubs" timeout=3600 mem=16
+//@ fn Reassembler::write_at
+//@ fn Reassembler::write_at_fin
+//@ fn Reassembler::write_reader
+//@ fn Reassembler::write_reader_impl
+//@ fn Reassembler::write_reader_at
+//@ fn Reassembler::write_reader_with_alloc
+//@ fn Reassembler::unsplit_range
+modular! { write unwind(4)
+fn vq_c01_reassembler_write_k0_l2() {
+    write_step(0, 2);
+}
+}
+
+fn write_step(n: usize, lmax: usize) {
+    let w: u64 = kani::any();
+    let v0: u8 = kani::any();
+    unsafe {
+        W_OFF = w;
+        W_VAL = v0;
+    }
+    let mut r = any_reassembler(n);
+    let c0 = cur(&r);
+    let s0 = snap(&r);
+    let had = has(&s0, w);
+
+    let data: [u8; L] = kani::any();
+    let len: usize = kani::any();
+    let off: u64 = kani::any();
+    let fin: bool = kani::any();
+    kani::assume(len <= lmax && lmax <= L && off <= MAXV);
+    let o = VarInt::new(off).unwrap();
+    let res = if fin { r.write_at_fin(o, &data[..len]) } else { r.write_at(o, &data[..len]) };
+
+    let (oi, li) = (off as i128, len as i128);
+    let out_of_range = write_out_of_range(oi, li);
+    let contradicts = write_contradicts_fin(c0, oi, li, fin);
+    // rejected exactly when the write exceeds 2^62-1 or contradicts the (known or announced) final size
+    assert!(res.is_err() == (out_of_range || contradicts), "C01/reassembler.write/err_iff_out_of_range_or_final_size_contradiction");
+    let c1 = cur(&r);
+    let s1 = snap(&r);
+    match res {
+        Err(e) => {
+            assert!(
+                e == if out_of_range { Error::OutOfRange } else { Error::InvalidFin },
+                "C01/reassembler.write/error_code"
+            );
+            // (recv, start, final, max_recv) unchanged
+            assert!(c1.start == c0.start && c1.max_recv == c0.max_recv && c1.fin == c0.fin, "C01/reassembler.write/err_leaves_cursors");
+            assert!(same_slots(&s0, &s1) && w_val() == v0, "C01/reassembler.write/err_leaves_contents");
+        }
+        Ok(()) => {
+            assert!(write_cursors_post(c0, oi, li, fin, c1), "C01/reassembler.write/cursors");
+            let wi = w as i128;
+            let written = oi <= wi && wi < oi + li && wi >= c0.start;
+            let now = has(&s1, w);
+            // recv' = recv  U  { off+i -> data[i] } restricted to >= start
+            assert!(now == (had || written), "C01/reassembler.write/recv_domain_is_union");
+            if had {
+                assert!(w_val() == v0, "C01/reassembler.write/buffered_bytes_never_overwritten");
+            } else if now {
+                assert!(w_val() == data[(w - off) as usize], "C01/reassembler.write/new_bytes_are_the_frame_bytes");
+            }
+            assert_rep_inv(c1, &s1);
+        }
+    }
+    kani::cover!(res.is_ok() && !had && has(&s1, w), "reach:witness_newly_written");
+    kani::cover!(n == 0 || (res.is_ok() && had && oi <= w as i128 && (w as i128) < oi + li), "reach:duplicate_byte_kept");
+    kani::cover!(res.is_ok() && s1.n > n, "reach:slot_added");
+    kani::cover!(res.is_ok() && len > 0 && oi + li <= c0.start, "reach:write_entirely_below_read_cursor");
+    kani::cover!(res.is_ok() && fin, "reach:fin_accepted");
+    kani::cover!(res == Err(Error::InvalidFin), "reach:invalid_fin");
+    kani::cover!(res == Err(Error::OutOfRange), "reach:out_of_range");
+    kani::cover!(res.is_ok() && len > 0 && blk(oi) != blk(oi + li - 1), "reach:write_straddles_block_boundary");
+    end_of_harness(r);
+}
+
+
+
+*/
